@@ -584,6 +584,8 @@ def gen_prog(rng):
             e = {'lhs': [y, k0], 'rhs': gen_rhs(rng, ctx)}
             if supported(e):
                 break
+        else:       # (for-else: no supported tree in 50 draws)
+            e = {'lhs': [y, k0], 'rhs': ['var', 'v', names[-1], 0]} if ctx['kind'][names[-1]] == 'v' else {'lhs': [y, k0], 'rhs': ['num', '1']}
         if rng.random() < 0.03 and e['rhs'][0] != 'if':
             # an operation CPython performs on Python numbers alone (no series operand): 1/0 raises ZeroDivisionError, 10.0 ** 400 and
             # 10 ** 400 raise OverflowError when evaluated / stored.  Outside the model's subset (K_pyast / K_eval have nothing to say);
@@ -591,8 +593,6 @@ def gen_prog(rng):
             trap = rng.choice([['par', ['bin', '/', ['num', '1'], ['num', '0']]], ['bin', '**', ['num', '10.0'], ['num', '400']],
                                ['bin', '**', ['num', '10'], ['num', '400']], ['par', ['bin', '/', ['num', '2.5'], ['par', ['bin', '-', ['num', '1'], ['num', '1']]]]]])
             e = {'lhs': [y, k0], 'rhs': ['bin', rng.choice(['*', '+']), e['rhs'], trap]}
-        else:
-            e = {'lhs': [y, k0], 'rhs': ['var', 'v', names[-1], 0]} if ctx['kind'][names[-1]] == 'v' else {'lhs': [y, k0], 'rhs': ['num', '1']}
         eqs.append(e)
     rng.shuffle(eqs)
     return prog_case(rng, eqs, f20=rng.random() < 0.03, catch=rng.random() < 0.3)
@@ -780,6 +780,11 @@ def gen(rng, tier):
         s = pc.gen_script(rng)
         cases.append(_raw(s))
         cases.append(_raw(pc.mutate(rng, s)))
+    census = shape_census(cases)
+    tot = sum(census.values())
+    rich = sum(census.get(k, 0) for k in ('bin', 'call', 'if', 'neg'))
+    if tot and (rich < 0.6 * tot or any(census.get(k, 0) < 0.03 * tot for k in ('bin', 'call', 'if'))):
+        raise RuntimeError('C01 generator: the value level is (nearly) vacuous — right-hand-side shapes %r' % census)
     return cases
 
 
@@ -1302,6 +1307,37 @@ def nontrivial(case, obs):
     return 'expect' in case
 
 
+_RANK = {'num': 0, 'var': 1, 'par': 1, 'neg': 2, 'bin': 3, 'call': 4, 'if': 5}
+
+
+def rhs_shape(case):
+    """the richest right-hand side of a program, for the evidence buckets: top constructor (num < var < neg < bin < call < if), +lag when a
+    series is read at a lag / lead, +shared when an equation reads another equation's left-hand variable (Gauss-Seidel order observable)"""
+    def top(tr):
+        while tr[0] == 'par':
+            tr = tr[1]
+        return tr[0]
+    tops = [top(e['rhs']) for e in case['eqs']]
+    best = max(tops, key=lambda x: _RANK.get(x, 3)) if tops else 'none'
+    lhs = {e['lhs'][0] for e in case['eqs']}
+    lag = any(v[3] for e in case['eqs'] for v in tree_terms(e['rhs']))
+    shared = any(v[2] in (lhs - {e['lhs'][0]}) for e in case['eqs'] for v in tree_terms(e['rhs']))
+    return best + ('+lag' if lag else '') + ('+shared' if shared else '')
+
+
+def shape_census(cases):
+    """RHS-shape distribution of the 'prog' / 'mix' cases; gen() refuses a corpus whose value level has become vacuous"""
+    out = {}
+    for c in cases:
+        if c['kind'] in ('prog', 'mix'):
+            for e in c['eqs']:
+                tr = e['rhs']
+                while tr[0] == 'par':
+                    tr = tr[1]
+                out[tr[0]] = out.get(tr[0], 0) + 1
+    return out
+
+
 def bucket(case, obs):
     if obs is None or obs.get('timeout'):
         return 'timeout'
@@ -1309,7 +1345,7 @@ def bucket(case, obs):
     if 'syms' not in obs:
         return k + '/' + obs.get('parse_exc', '?')
     if k in ('prog', 'mix'):
-        return k + '/%deq/%s%s' % (len(case['eqs']), 'catch' if case['catch'] else 'ignore', '/' + obs['exc'] if obs.get('exc') else '')
+        return k + '/%deq/%s/rhs=%s%s' % (len(case['eqs']), 'catch' if case['catch'] else 'ignore', rhs_shape(case), '/' + obs['exc'] if obs.get('exc') else '')
     if k == 'text':
         return 'text/%dst/%s' % (len(case['stmts']), 'built' if 'names' in obs else 'parse-only')
     return 'raw/' + ('corpus' if 'expect' in case else 'malformed/' + ('built' if 'names' in obs else 'parse-only'))
